@@ -61,6 +61,12 @@ def cc_test(c, items):
         from .core import E
         if not E.must(c < 0x20000):
             raise Unsupported('\\w on a code point above 0x1FFFF')
+    from .core import E
+    dom = E.domains.get(c.get_id())
+    if dom is not None:
+        alts = [(lo, hi) for lo, hi in alts if lo != hi or dom.ok(lo)]
+        if not alts:
+            return neg
     e = z3.Or(*[(c == lo) if lo == hi else z3.And(c >= lo, c <= hi) for lo, hi in alts])
     return SymBool(z3.Not(e) if neg else e)
 
